@@ -66,6 +66,14 @@ func genC02(level int) []*CacheScen {
 		add(&CacheScen{Rel: RelSS, NKeys: 2, Init: []int{IExpired, IAbsent}, Table: TPlain, Threads: [][]CIn{{con(cGet, 0), con(cSet, 0)}, {cDelExp}}})
 		add(&CacheScen{Rel: RelSS, NKeys: 2, Init: []int{IExpired, IAbsent}, Table: TPlain, Threads: [][]CIn{{con(cSet, 0), con(cGet, 0)}, {cDelExp}}})
 		add(&CacheScen{Rel: RelSS, NKeys: 2, Init: []int{IExpired, IAbsent}, Table: TPlain, Threads: [][]CIn{{con(cSet, 0)}, {con(cGet, 0), con(cGet, 0)}}})
+		// the table grows (one caller inserts into a full chain above the load factor) while another call runs
+		for _, b := range []CIn{cSet, cGoS, cDelete, cGet, cDelExp} {
+			if level == 0 && tw == 1 && b.Op == CDeleteExpired {
+				continue
+			}
+			add(&CacheScen{Rel: RelDD, NKeys: 2, Init: []int{IAbsent, ILive}, Table: TGrowArmed, Threads: [][]CIn{{con(cSet, 0)}, {con(b, 1)}}})
+			add(&CacheScen{Rel: RelSD, NKeys: 2, Init: []int{IAbsent, IAbsent}, Table: TGrowArmed, Threads: [][]CIn{{con(cSet, 0)}, {con(b, 1)}}})
+		}
 		if level >= 1 {
 			// three callers on one key
 			red := []CIn{cSet, cGet, cGoS, cDelete, cDelExp, cGaR}
